@@ -211,6 +211,35 @@ class Search:
         del asg[u]
 
 
+def forced(cons, p, fixed):
+    """Unit propagation only: the assignments that hold in EVERY satisfying assignment extending
+    `fixed` (single-root unit constraints, repeated to a fixpoint). Returns dict, or None on contradiction."""
+    s = Search(cons, p, fixed, [])
+    asg = dict(fixed)
+    todo = list(s.cons)
+    progress = True
+    while progress:
+        progress = False
+        rest = []
+        for con in todo:
+            r = s._reduce(con, asg)
+            if r[0] == "check":
+                if not r[1]:
+                    return None
+            elif r[0] == "roots":
+                if not r[2]:
+                    return None
+                if len(r[2]) == 1:
+                    asg[r[1]] = r[2][0]
+                    progress = True
+                else:
+                    rest.append(con)
+            else:
+                rest.append(con)
+        todo = rest
+    return asg
+
+
 def solve_all(cons, p, fixed, free, limit=64, **kw):
     """returns (list of (assignment, dontcare), status) with status in
     'complete' | 'partial' (stopped at limit) | 'heuristic' | 'budget'"""
